@@ -873,6 +873,10 @@ pub struct Dfs {
     pub forced: Option<Vec<(usize, String)>>,
     /// inject faults only into threads of this store instance
     pub fault_inst: Option<usize>,
+    /// sleep-set reduction on (default). Off for preemption-bounded passes:
+    /// sleep sets assume the whole space is explored and would prune schedules
+    /// that lie within the bound.
+    pub use_sleep: bool,
 }
 
 #[derive(Clone, Copy, Debug, PartialEq, Eq)]
@@ -904,6 +908,7 @@ impl Dfs {
             preemptions: 0,
             forced: None,
             fault_inst: None,
+            use_sleep: true,
         }
     }
 
@@ -941,12 +946,15 @@ impl Dfs {
             return false;
         }
         let bound = self.preempt_bound;
+        let use_sleep = self.use_sleep;
         while let Some(top) = self.stack.last_mut() {
             let cur = top.chosen;
             top.done.push(cur);
             let (ctid, clabel) = (top.enabled[cur].0, top.enabled[cur].1.clone());
             // the transition just explored sleeps for its later siblings
-            top.sleep.push((ctid, clabel));
+            if use_sleep {
+                top.sleep.push((ctid, clabel));
+            }
             let mut next = None;
             for i in 0..top.enabled.len() {
                 if top.done.contains(&i) {
@@ -1047,6 +1055,7 @@ impl Chooser for Dfs {
         } else {
             // new node: inherit the sleep set from the parent
             let sleep: Vec<(usize, String)> = match self.stack.last() {
+                _ if !self.use_sleep => vec![],
                 None => vec![],
                 Some(parent) => {
                     let cres = &parent.enabled[parent.chosen].2;
